@@ -2,7 +2,8 @@ import MindsVerif.Model.ModelJoin
 /-! Line protocol driver for the table–model join planner model (C14).
 
 input (space separated tokens; strings are `~` + percent-encoded text):
-  line    ::= nops operand* where using info
+  line    ::= nops operand* where using info catalog
+  catalog ::= nint str* nproj str* nmodel ((-|str) str)* pns dns        (pns, dns: - | str)
   info    ::= ntargets expr* isStar distinct groupBy having limit offset order nothers expr*   (flags 0|1; limit/offset - | str)
   order   ::= - | R n (expr dir)*
   operand ::= (tab|mod|sub) nparts part* alias jtype on target ninner integ tkey
@@ -160,15 +161,46 @@ def rdInfo : List String → Option (QInfo × List E × List String)
     | [] => none
   | [] => none
 
-def rdQuery : List String → Option Query
+def rdModel (ts : List String) : Option ((Option String × String) × List String) := do
+  let (p, ts) ← rdOptStr ts
+  let (n, ts) ← rdStr ts
+  pure ((p, n), ts)
+
+def rdCatalog : List String → Option (Catalog × List String)
+  | n :: ts => do
+    let n ← n.toNat?
+    let (ints, ts) ← takeN rdStr n ts
+    match ts with
+    | m :: ts => do
+      let m ← m.toNat?
+      let (projs, ts) ← takeN rdStr m ts
+      match ts with
+      | k :: ts => do
+        let k ← k.toNat?
+        let (models, ts) ← takeN rdModel k ts
+        let (pns, ts) ← rdOptStr ts
+        let (dns, ts) ← rdOptStr ts
+        pure ({ integrations := ints, projects := projs, models := models, predictorNs := pns, defaultNs := dns }, ts)
+      | [] => none
+    | [] => none
+  | [] => none
+
+def rdQuery : List String → Option (Query × Catalog)
   | n :: ts => do
     let n ← n.toNat?
     let (ops, ts) ← takeN rdOperand n ts
     let (w, ts) ← rdOptE ts
     let (u, ts) ← rdUsing ts
     let (info, others, ts) ← rdInfo ts
-    if ts.isEmpty then pure { ops := ops, wh := w, using? := u, info := info, others := others } else none
+    let (cat, ts) ← rdCatalog ts
+    if ts.isEmpty then pure ({ ops := ops, wh := w, using? := u, info := info, others := others }, cat) else none
   | [] => none
+
+/-- what the catalog model says about every operand: model? routable? -/
+def showRoute (cat : Catalog) (ops : List Operand) : String :=
+  "route(" ++ ",".intercalate (ops.map fun o =>
+    if o.kind = .sub then "s" else
+      (if cat.isModel o.parts then "m" else "t") ++ (if cat.routable o.parts then "1" else "0")) ++ ")"
 
 def argList : E → List E
   | .acons h t => h :: argList t
@@ -217,7 +249,8 @@ partial def showStep : Step → String
 def handle (line : String) : String :=
   match rdQuery ((line.trimAscii.toString.splitOn " ").filter (· ≠ "")) with
   | none => "bad-line"
-  | some q =>
+  | some (q, cat) =>
+    showRoute cat q.ops ++ " || " ++
     match plan q with
     | .error .planning => "exc:PlanningException"
     | .error .notImplemented => "exc:NotImplementedError"
